@@ -31,7 +31,10 @@ def run(chk):
     r = Num(ep.sym("r"))
     normal = {}
     nterms = 0
-    for name in F.FORMS:
+    ref_forms, extra_forms = F.all_forms(I, P)
+    chk.info["forms_with_reference_formula"] = ref_forms
+    chk.info["further_registered_forms (no reference formula in sa/specs/forms.py: C06.O1 not decided for them)"] = extra_forms
+    for name in ref_forms + extra_forms:
         def one(name=name):
             inst = F.form_instance(I, P, name)
             site = inst.ci.lookup("__call__").site()
@@ -43,8 +46,9 @@ def run(chk):
             normal[name] = (inst, params, v)
             # O3
             if name not in sigs:
-                chk.ob("C06.O3", "%s has a ':potable signature:' entry in the manual" % name, False, site=site, found=sorted(sigs),
-                       expect=name, key="C06.O3|%s|manual-entry" % name)
+                if name in ref_forms:
+                    chk.ob("C06.O3", "%s has a ':potable signature:' entry in the manual" % name, False, site=site, found=sorted(sigs),
+                           expect=name, key="C06.O3|%s|manual-entry" % name)
             else:
                 want = F.manual_params(name, sigs[name])
                 chk.ob("C06.O3", "%s: parameters after r are %s" % (name, want), params[1:] == want, site=site, found=params[1:],
@@ -56,7 +60,7 @@ def run(chk):
                            site=inst.ci.lookup(d).site(), found=dp, expect=params, key="C06.O3|%s|%s-params" % (name, d))
             # O1 documented formula
             specname = "sqrt_" if name == "sqrt" else name
-            if name != "zbl":
+            if name != "zbl" and name in ref_forms:
                 sf = P.func("spec.forms", specname)
                 sp = sf.params()
                 if sorted(sp) != sorted(params):
@@ -78,8 +82,8 @@ def run(chk):
         n = chk.attempt(name, one)
         nterms += n or 0
     chk.info["normal_form_terms"] = nterms
-    chk.attempt("O4", lambda: factory_route(chk, P, normal))
-    chk.attempt("O5", lambda: registry_route(chk, P, normal))
+    chk.attempt("O4", lambda: factory_route(chk, P, normal, ref_forms, extra_forms))
+    chk.attempt("O5", lambda: registry_route(chk, P, normal, ref_forms, extra_forms))
     chk.assume("floating-point evaluation error and overflow of the formulas are not decided (exact real arithmetic)")
     chk.assume("math.exp/log/sqrt denote the real functions")
     chk.assume("ZBL is compared with its _as_sympy sibling only: the manual's entry is schematic (see sa/specs/forms.py)")
@@ -102,13 +106,15 @@ def polynomial(chk, P, I, inst):
     return total
 
 
-def factory_route(chk, P, normal):
+def factory_route(chk, P, normal, ref_forms, extra_forms):
     I = F.make_interp(P)
     m = P.module(F.PFORMS)
     n = 0
-    for name in F.FORMS:
+    for name in ref_forms + extra_forms:
         fac = I.module_global(m, name)
         site = "%s %s" % (m.relpath, name)
+        if fac is None and name in extra_forms:
+            continue        # a further form need not have a python-API factory
         if not (isinstance(fac, InstV) and fac.ci.name == "_FunctionFactory"):
             chk.ob("C06.O4", "potentialforms.%s is a function factory" % name, False, site=site, found=fac, expect="_FunctionFactory",
                    key="C06.O4|%s|factory" % name)
@@ -152,7 +158,7 @@ def _form_tuple_hook(P):
     return hook
 
 
-def registry_route(chk, P, normal):
+def registry_route(chk, P, normal, ref_forms, extra_forms):
     I = F.make_interp(P)
     I.hooks["atsim.potentials.config._common:make_potential_form_tuple_from_function"] = _form_tuple_hook(P)
     mod = P.module("atsim.potentials.config._common")
@@ -161,7 +167,7 @@ def registry_route(chk, P, normal):
     pfe = P.cls("atsim.potentials.config._common", "Potential_Form_Exception")
     mk = I.module_global(mod, "make_potential_form_tuple_from_function")
     site = pform.lookup("__call__").site()
-    for name in F.FORMS:
+    for name in ref_forms + extra_forms:
         if name not in normal:
             continue
         inst, params, want = normal[name]
@@ -188,10 +194,12 @@ def registry_route(chk, P, normal):
     if not isinstance(table, DictV):
         raise AnalysisError("_register_standard did not return a dict")
     keys = sorted(k.v for k, _ in table.items.values())
-    want_keys = sorted("as." + n for n in F.FORMS)
-    chk.ob("C06.O5", "standard forms are registered exactly as 'as.'+name for the 14 built-in functions", keys == want_keys, site=rsite,
-           found=keys, expect=want_keys, key="C06.O5|registry|names")
-    for name in F.FORMS:
+    want_keys = sorted("as." + n for n in ref_forms)
+    missing = [k for k in want_keys if k not in keys]
+    odd = [k for k in keys if not k.startswith("as.")]
+    chk.ob("C06.O5", "every documented form is registered as 'as.'+name, and nothing is registered under another prefix",
+           not missing and not odd, site=rsite, found=keys, expect=want_keys, key="C06.O5|registry|names")
+    for name in ref_forms + extra_forms:
         ent = table.items.get(Const("as." + name).key())
         if ent is None or name not in normal:
             continue
